@@ -4,6 +4,7 @@ package main
 // package initialisers once, and explores harness paths on a worker pool.
 
 import (
+	"encoding/json"
 	"fmt"
 	"go/types"
 	"os"
@@ -72,7 +73,54 @@ func buildOverlay(repo, verif string) (map[string][]byte, map[string]string, err
 		files[virt] = p
 		return nil
 	})
-	return ov, files, err
+	if err != nil {
+		return ov, files, err
+	}
+	// source cuts: textual substitutions applied to the current /repo source
+	// (regenerated on every run; a site that is no longer found is an error,
+	// never silently skipped)
+	cuts, err := loadCuts(verif)
+	if err != nil {
+		return ov, files, err
+	}
+	for _, c := range cuts {
+		virt := filepath.Join(repo, c.File)
+		data, ok := ov[virt]
+		if !ok {
+			if data, err = os.ReadFile(virt); err != nil {
+				return ov, files, fmt.Errorf("cut %s: %v", c.File, err)
+			}
+		}
+		if n := strings.Count(string(data), c.Old); n != 1 {
+			return ov, files, fmt.Errorf("cut site %q found %d times in %s (expected once)", c.Old, n, c.File)
+		}
+		ov[virt] = []byte(strings.Replace(string(data), c.Old, c.New, 1))
+		files[virt] = "cut:" + c.File
+	}
+	return ov, files, nil
+}
+
+// SourceCut is a recorded, deliberate substitution in the code under test.
+type SourceCut struct {
+	File string `json:"file"`
+	Old  string `json:"old"`
+	New  string `json:"new"`
+	Why  string `json:"why"`
+}
+
+func loadCuts(verif string) ([]SourceCut, error) {
+	data, err := os.ReadFile(filepath.Join(verif, "cuts.json"))
+	if os.IsNotExist(err) {
+		return nil, nil
+	}
+	if err != nil {
+		return nil, err
+	}
+	var cuts []SourceCut
+	if err := json.Unmarshal(data, &cuts); err != nil {
+		return nil, fmt.Errorf("cuts.json: %v", err)
+	}
+	return cuts, nil
 }
 
 func NewEngine(repo, verif string, pkgDirs []string) (*Engine, error) {
